@@ -1,9 +1,11 @@
 # C08 - an online backup taken under load is a consistent snapshot
 #
-# Deterministic stand-in for the concurrent writer: while iwkv_online_backup copies the main file (it holds no
-# lock there) the harness executes the next n operations of the history from inside the file-effect callback
-# at the k-th write to the backup target - i.e. exactly the interleaving "writer runs n operations between two
-# chunks of the copy" - for every k.  (True multi-threaded schedules are C07's business and are not claimed.)
+# Controlled stand-in for the concurrent writer: a second thread executes the next n operations of the history;
+# it is released from inside the file-effect callback at the k-th write to the backup target (main-file copy
+# stage, no lock held) and the backup thread waits for it (at most 300 ms - the writer may legitimately block
+# until the copy is over), i.e. the interleaving "writer runs n operations between two chunks of the copy".
+# Verdicts do not depend on the timing: every outcome the wait can produce is judged by the same oracle.
+# (Free-running schedules and the checkpoint thread are C07's business and are not claimed.)
 # Oracle (python dict model): the image opens, and its contents equal the state after a prefix of the history
 # that contains everything completed before the call and nothing issued after it returned; the live store
 # afterwards holds the state after the whole history.
@@ -32,7 +34,7 @@ def gen_history(rng, at, ninj, growth):
     if rng.chance(1, 2):
         ops.append("s")
     ib = len(ops)
-    ops.append("b%d:%d" % (at, ninj))
+    ops.append("B%d:%d" % (at, ninj))
     ops += [rnd_op(rng, growth) for _ in range(ninj)]
     ops += [rnd_op(rng, False) for _ in range(rng.range(0, 5))]
     ops.append("s")
@@ -135,6 +137,12 @@ def check(run):
         run.notes.append("effect numbering mode: " + mode)
         n = (60 if run.tier == "quick" else 1500) * mult
         jobs = []
+        cdir = os.path.join(vlib.VERIF, "corpus", "C08")
+        for cf in sorted(os.listdir(cdir)) if os.path.isdir(cdir) else []:
+            if cf.endswith(".json"):
+                c = json.load(open(os.path.join(cdir, cf)))
+                ibc = [i for i, o in enumerate(c["ops"]) if o[0] in "bB"][0]
+                jobs.append((1000000 + len(jobs), c["crc"], c["ops"], ibc, True, int(c["ops"][ibc][1:].split(":")[0]), 0))
         for h in range(n):
             crc = run.rng.choice([0, 0, 1, 2])
             at = run.rng.range(1, 5)
@@ -182,7 +190,7 @@ def replay(run, path):
         mode, impl = W.stable_harness(wd)
         model = vlib.build_model("wal")
         ops = r["ops"]
-        ib = [i for i, o in enumerate(ops) if o[0] == "b"][0]
+        ib = [i for i, o in enumerate(ops) if o[0] in "bB"][0]
         res, ok, why, cl = one(run, impl, model, wd, "r", r["crc"], ops, ib)
         print("history:", " ".join(ops)); print("mode:", r["crc"], " run:", res.get("run"), " writer ops inside the call:", res.get("injected"))
         print("image:", (res.get("image") or "")[:600]); print("model:", res.get("model"))
